@@ -85,6 +85,13 @@ var c14sConnAddrs = func() (out [c14sNC]ma.Multiaddr) {
 	return
 }()
 
+var c14sConnAddrStr = func() (out [c14sNC]string) {
+	for i := range out {
+		out[i] = c14sConnAddrs[i].String()
+	}
+	return
+}()
+
 func c14sConnName(i int) string { return fmt.Sprintf("%c%d", c14sPeerNames[i/2], i%2+1) }
 
 // ---------- fake connection: records Close / CloseWithError, nothing else ----------
